@@ -6,6 +6,7 @@ VERUS_UNITS = {
     "u5_ttl": dict(template="units/u5_ttl.vrs", rlimit=80),
     "u6_store": dict(template="units/u6_store.vrs", rlimit=120),
     "u7_glue": dict(template="units/u7_glue.vrs", rlimit=120),
+    "u8_builder": dict(template="units/u8_builder.vrs", rlimit=80),
     "u19_async": dict(template="units/u19_async.vrs", rlimit=120),
     "u19_async_policy": dict(template="units/u19_async_policy.vrs", rlimit=120),
 }
@@ -34,7 +35,7 @@ PROPS = {
     "C07": dict(units=["u4_policy", "u1_estimator"], kani=[], replay=["policy", "estimator"]),
     "C13": dict(units=["u1_estimator"], kani=["bbloom"], replay=["estimator"]),
     "C14": dict(units=["u1_estimator"], kani=["bbloom"], replay=["estimator"]),
-    "C20": dict(units=["u1_estimator"], kani=["bbloom"], replay=["estimator"]),
+    "C20": dict(units=["u1_estimator", "u8_builder", "u7_glue"], kani=["bbloom"], replay=["estimator"]),
     "C02": dict(units=["u6_store", "u7_glue"], kani=[], replay=["ttl"]),
     "C03": dict(units=["u6_store", "u7_glue"], kani=["ttl"], replay=["ttl"]),
     "C04": dict(units=["u6_store", "u4_policy"], kani=["ttl"], replay=["ttl", "policy"]),
